@@ -70,6 +70,7 @@ def mc_and_replay_cex(cx, name, c, invariants, properties=(), spec="Spec", maxpo
     """Model-check; a spec-level counterexample is never a verdict: it is replayed on the real code."""
     res = model_check(cx.wd, name, c, invariants, properties, spec=spec, maxpolls=maxpolls, timeout=timeout)
     cx.add_mc(res, c, what or name)
+    log("  TLC %s: %s distinct, violated=%s, t=%.1fs" % (what or name, res.get("distinct"), res.get("violated"), time.time() - cx.t0))
     if res["violated"]:
         sched = schedule_of_trace(res["trace"])
         log("  TLC: %s violated in %s (%d-step counterexample) -> replaying on the real code" % (res["violated"], name, len(sched)))
@@ -114,7 +115,7 @@ def replay_graph(cx, name, c, max_paths=None, maxpolls=2, sizes=None, timeout=90
         r = results[0]
         cx.samples.append({"config": c, "schedule": r["sched"][:40], "final": r["final"]})
     return {"paths": len(paths), "edges": total, "planned": planned, "walked": len(walked),
-            "accepted": len(v["accepted"]), "rejected": len(v["rejected"])}
+            "accepted": len(v["accepted"]), "rejected": len(v["rejected"]), "t": round(time.time() - cx.t0, 1)}
 
 
 def random_runs(cx, name, c, n, policies=("uniform", "pct", "window"), fault_prob=0.0, cancel_prob=0.0,
@@ -136,6 +137,7 @@ def random_runs(cx, name, c, n, policies=("uniform", "pct", "window"), fault_pro
             cx.nonconforming.append({"case": rid, "step": step})
         for rid, step, inv in v["inv_violations"]:
             cx.nonconforming.append({"case": rid, "step": step, "invariant": inv})
+    log("  random %s: %d cases, t=%.1fs" % (name, len(cases), time.time() - cx.t0))
     if results and len(cx.samples) < 4:
         r = results[-1]
         cx.samples.append({"config": c, "policy": cases[-1]["random"]["policy"], "schedule": r["sched"][:40],
@@ -298,4 +300,208 @@ def check_C02(cx):
     return finish(cx)
 
 
-CHECKS = {"C01": check_C01, "C02": check_C02}
+def check_C06(cx):
+    cx.build()
+    quick = cx.tier == "quick"
+    inv = ["TypeOK", "C06_Graceful", "C06_NoMidBatch", "C05_Once"]
+    mcs = [
+        ("q1-block", cfg({"W1": W("W1"), "W2": W("Wv")}, {"C1": "e1"}, qsize=1, until=True)),
+        ("q2-block", cfg({"W1": W("W1", "CW1"), "W2": W("Wv")}, {"C1": "e1"}, qsize=2, until=True)),
+        ("q2-bounded", cfg({"W1": W("W1"), "W2": W("Wv")}, {"C1": "e1"}, qsize=2, until=False)),
+    ]
+    live = [("live-q1", cfg({"W1": W("W1"), "W2": W("Wv")}, {"C1": "e1"}, qsize=1, until=True))]
+    if not quick:
+        mcs += [
+            ("q2-2x2", cfg({"W1": W("W1", "Wv"), "W2": W("CW1", "CWv")}, {"C1": "e1"}, qsize=2, until=True)),
+            ("q1-2closers", cfg({"W1": W("W1"), "W2": W("Wv")}, {"C1": "e1", "C2": "nil"}, qsize=1, until=True)),
+            ("q3-bounded", cfg({"W1": W("W1", "W1"), "W2": W("Wv")}, {"C1": "e1"}, qsize=3, until=False)),
+            ("q2-faults", cfg({"W1": W("W1", "CW1"), "W2": W("Wv")}, {"C1": "e1"}, qsize=2, until=True, maxfaults=1)),
+        ]
+        live += [("live-q2-faults", cfg({"W1": W("W1"), "W2": W("Wv")}, {"C1": "e1"}, qsize=2, until=True, maxfaults=1)),
+                 ("live-bounded", cfg({"W1": W("W1"), "W2": W("Wv")}, {"C1": "e1"}, qsize=1, until=False))]
+    for name, c in mcs:
+        mc_and_replay_cex(cx, "MC" + name.replace("-", ""), c, inv, what="C06 invariants, " + name)
+    for name, c in live:
+        mc_and_replay_cex(cx, "MC" + name.replace("-", ""), c, ["TypeOK"], properties=["C06_CloseTerminates"],
+                          spec="FairSpec", what="Close terminates under weak fairness, " + name)
+    # regression self-test: the specification of the unrepaired Close must still yield the
+    # release-window counterexample, and that schedule is replayed on the current tree
+    if TREE["FixDrain"]:
+        c0 = cfg({"W1": W("W1"), "W2": W("Wv")}, {"C1": "e1"}, qsize=1, until=True, fixdrain=False)
+        res = model_check(cx.wd, "MCunfixed", c0, ["C06_Graceful"])
+        cx.add_mc(res, c0, "self-test: unrepaired Close (FixDrain=FALSE) must violate C06_Graceful")
+        cx.selftests["unfixed_spec_violates_C06_Graceful"] = bool(res["violated"])
+        if not res["violated"]:
+            raise Inconclusive("self-test failed: the unrepaired specification no longer violates C06_Graceful (vacuous invariant?)")
+        sched = schedule_of_trace(res["trace"])
+        c1 = cfg({"W1": W("W1"), "W2": W("Wv")}, {"C1": "e1"}, qsize=1, until=True)
+        cases = [go_case(c1, "regress-%d" % i, cx.rnd, schedule=sched, sizes=SMALL_SIZES) for i in range(3)]
+        results = run_driver(cx.driver, "chan", cases, cx.wd, tag="regress")
+        cx.absorb(results, cases)
+        cx.selftests["old_counterexample_schedule"] = sched
+    graphs = [("gq1", cfg({"W1": W("W1")}, {"C1": "e1"}, qsize=1, until=True))]
+    if not quick:
+        graphs += [("gq1w2", cfg({"W1": W("W1"), "W2": W("Wv")}, {"C1": "e1"}, qsize=1, until=True)),
+                   ("gq2nb", cfg({"W1": W("W1"), "W2": W("CW1")}, {"C1": "nil"}, qsize=2, until=False))]
+    for name, c in graphs:
+        st = replay_graph(cx, name, c, max_paths=300 if quick else None)
+        log("  replay %s: %s" % (name, st))
+    big = [
+        ("r3q2c1", cfg({"W1": W("W1", "Wv"), "W2": W("Wv", "WW"), "W3": W("CW1")}, {"C1": "e1"}, qsize=2, until=True)),
+        ("r4q1c2", cfg({"W1": W("W1", "Wv"), "W2": W("Wv"), "W3": W("CW1"), "W4": W("W1")}, {"C1": "e1", "C2": "e2"}, qsize=1, until=True)),
+        ("r3q3nbc1", cfg({"W1": W("W1", "Wv"), "W2": W("Wv", "W1"), "W3": W("CW1")}, {"C1": "nil"}, qsize=3, until=False)),
+    ]
+    n = 30 if quick else 300
+    for name, c in big:
+        random_runs(cx, name, c, n, policies=("window", "pct", "uniform"), sizes=NZ_SIZES)
+    return finish(cx)
+
+
+KINDS = ["M", "W1", "Wv", "CW1", "CWv", "WW"]
+
+
+def check_C11(cx):
+    cx.build()
+    quick = cx.tier == "quick"
+    inv = ["TypeOK", "C11_FailAfterClose", "C01_ErrNoBytes", "C05_Once"]
+    mcs = [
+        ("async-nil", cfg({"W1": W("W1", "CW1"), "W2": W("Wv")}, {"C1": "nil"}, qsize=1, until=True)),
+        ("async-e1-m", cfg({"W1": W("M", "W1", "CW1")}, {"C1": "e1"}, qsize=1, until=True)),
+        ("sync-nil", cfg({"W1": W("M", "W1", "CW1"), "W2": W("Wv", "CWv")}, {"C1": "nil"}, qsize=0)),
+        ("sync-e1", cfg({"W1": W("M", "W1", "CW1"), "W2": W("Wv", "CWv")}, {"C1": "e1"}, qsize=0)),
+        ("async-2closers", cfg({"W1": W("W1", "CW1")}, {"C1": "nil", "C2": "e2"}, qsize=1, until=True)),
+    ]
+    if not quick:
+        mcs += [
+            ("async-q2-3ops", cfg({"W1": W("M", "W1"), "W2": W("CWv")}, {"C1": "nil"}, qsize=2, until=True)),
+            ("async-nb", cfg({"W1": W("W1", "CW1"), "W2": W("M")}, {"C1": "nil"}, qsize=1, until=False)),
+            ("async-deadctx", cfg({"W1": W("CW1:dead", "CWv:dead"), "W2": W("W1")}, {"C1": "nil"}, qsize=1, until=True)),
+            ("sync-2closers", cfg({"W1": W("M", "W1"), "W2": W("CW1", "Wv")}, {"C1": "nil", "C2": "e2"}, qsize=0)),
+            ("async-faults", cfg({"W1": W("W1", "CW1")}, {"C1": "nil"}, qsize=1, until=True, maxfaults=1)),
+            ("async-wv-e1", cfg({"W1": W("Wv", "CWv"), "W2": W("M")}, {"C1": "e1"}, qsize=1, until=True)),
+        ]
+    for name, c in mcs:
+        mc_and_replay_cex(cx, "MC" + name.replace("-", ""), c, inv, what="C11 invariants, " + name)
+    if TREE["FixClosed"]:
+        c0 = cfg({"W1": W("W1", "CW1")}, {"C1": "nil"}, qsize=1, until=True, fixclosed=False)
+        res = model_check(cx.wd, "MCunfixed", c0, ["C11_FailAfterClose"])
+        cx.add_mc(res, c0, "self-test: entry points without the closed test (FixClosed=FALSE) must violate C11_FailAfterClose")
+        cx.selftests["unfixed_spec_violates_C11"] = bool(res["violated"])
+        if not res["violated"]:
+            raise Inconclusive("self-test failed: the unrepaired specification no longer violates C11_FailAfterClose")
+        sched = schedule_of_trace(res["trace"])
+        c1 = cfg({"W1": W("W1", "CW1")}, {"C1": "nil"}, qsize=1, until=True)
+        cases = [go_case(c1, "regress-%d" % i, cx.rnd, schedule=sched, sizes=SMALL_SIZES) for i in range(8)]
+        cx.absorb(run_driver(cx.driver, "chan", cases, cx.wd, tag="regress"), cases)
+    # every entry point after a completed Close, both select outcomes sampled many times
+    for arg in ("nil", "e1"):
+        for q, until in ((2, True), (1, False), (0, True)):
+            c = cfg({"W1": W(*KINDS)}, {"C1": arg}, qsize=q, until=until)
+            sched = [["step", "C1"]] * 12
+            cases = [go_case(c, "after-%s-q%d-%d" % (arg, q, i), cx.rnd, schedule=sched, sizes=SMALL_SIZES) for i in range(16 if quick else 64)]
+            results = run_driver(cx.driver, "chan", cases, cx.wd, tag="after")
+            cx.absorb(results, cases)
+            v = validate_traces(cx.wd, "afterT", c, results)
+            cx.traces_validated += len(v["accepted"])
+            cx.states += v["states"]
+            cx.nonconforming += [{"case": r, "step": st} for r, st, _ in v["rejected"]]
+    graphs = [("gq1", cfg({"W1": W("W1", "CW1")}, {"C1": "nil"}, qsize=1, until=True))]
+    if not quick:
+        graphs += [("gsync", cfg({"W1": W("M", "W1"), "W2": W("CWv")}, {"C1": "nil"}, qsize=0)),
+                   ("gq1m", cfg({"W1": W("M", "Wv")}, {"C1": "e1"}, qsize=1, until=False))]
+    for name, c in graphs:
+        st = replay_graph(cx, name, c, max_paths=300 if quick else None)
+        log("  replay %s: %s" % (name, st))
+    big = [
+        ("r3q2", cfg({"W1": W("M", "W1", "CW1"), "W2": W("Wv", "CWv", "WW"), "W3": W("CW1", "M")}, {"C1": "nil", "C2": "e2"}, qsize=2, until=True)),
+        ("r3sync", cfg({"W1": W("M", "W1", "CW1"), "W2": W("Wv", "CWv", "WW"), "W3": W("CW1", "M")}, {"C1": "nil"}, qsize=0)),
+    ]
+    n = 30 if quick else 300
+    for name, c in big:
+        random_runs(cx, name, c, n, sizes=NZ_SIZES)
+    return finish(cx)
+
+
+def check_C18(cx):
+    cx.build()
+    quick = cx.tier == "quick"
+    inv = ["TypeOK", "C18_NeverBlocks", "C18_Bound", "C18_CancelNoBytes", "C01_ErrNoBytes"]
+    props = ["C18_NoSpaceOnlyWhenFull"]
+    mcs = [
+        ("nb-q1", cfg({"W1": W("W1", "CW1"), "W2": W("Wv"), "W3": W("CWv:dead")}, qsize=1, until=False)),
+        ("b-q1-mortal", cfg({"W1": W("CW1:mortal"), "W2": W("W1"), "W3": W("CWv:mortal")}, qsize=1, until=True)),
+        ("b-q1-close", cfg({"W1": W("W1"), "W2": W("Wv"), "W3": W("CW1")}, {"C1": "e1"}, qsize=1, until=True)),
+    ]
+    if not quick:
+        mcs += [
+            ("nb-q2", cfg({"W1": W("W1", "CW1"), "W2": W("Wv", "W1"), "W3": W("CWv:dead")}, qsize=2, until=False)),
+            ("b-q2-mortal", cfg({"W1": W("CW1:mortal", "W1"), "W2": W("W1", "Wv"), "W3": W("CWv:mortal")}, qsize=2, until=True)),
+            ("b-q1-close-nil", cfg({"W1": W("W1"), "W2": W("Wv"), "W3": W("CW1:mortal")}, {"C1": "nil"}, qsize=1, until=True)),
+            ("nb-q3-4w", cfg({"W1": W("W1"), "W2": W("Wv"), "W3": W("CW1"), "W4": W("CWv")}, qsize=3, until=False)),
+        ]
+    for name, c in mcs:
+        mc_and_replay_cex(cx, "MC" + name.replace("-", ""), c, inv, properties=props, what="C18 invariants, " + name)
+    # liveness: a writer blocked on a full queue eventually returns (space, its context, or close)
+    live = cfg({"W1": W("W1"), "W2": W("Wv"), "W3": W("CW1")}, qsize=1, until=True)
+    write_live = ["C18_WaitEnds"]
+    mc_and_replay_cex(cx, "MClive", live, ["TypeOK"], properties=write_live, spec="FairSpec", what="C18 blocked writers eventually return")
+    graphs = [("gnb", cfg({"W1": W("W1"), "W2": W("CW1"), "W3": W("Wv")}, qsize=1, until=False))]
+    if not quick:
+        graphs += [("gb", cfg({"W1": W("W1"), "W2": W("CW1:mortal"), "W3": W("Wv")}, qsize=1, until=True)),
+                   ("gbc", cfg({"W1": W("W1"), "W2": W("CW1")}, {"C1": "e1"}, qsize=1, until=True))]
+    for name, c in graphs:
+        st = replay_graph(cx, name, c, max_paths=300 if quick else None)
+        log("  replay %s: %s" % (name, st))
+    big = [
+        ("r5q1nb", cfg({"W%d" % i: W("W1", "CW1", "Wv") for i in range(1, 6)}, qsize=1, until=False)),
+        ("r5q2b", cfg({"W%d" % i: W("W1", "CW1:mortal", "Wv") for i in range(1, 6)}, qsize=2, until=True)),
+        ("r4q1bc", cfg({"W%d" % i: W("W1", "CWv:mortal") for i in range(1, 5)}, {"C1": "e1"}, qsize=1, until=True)),
+        ("r4q3nb", cfg({"W%d" % i: W("Wv", "CW1:dead", "W1") for i in range(1, 5)}, qsize=3, until=False)),
+    ]
+    n = 30 if quick else 300
+    for name, c in big:
+        random_runs(cx, name, c, n, policies=("window", "uniform", "pct"), cancel_prob=0.05, sizes=NZ_SIZES)
+    return finish(cx)
+
+
+def check_C05(cx):
+    cx.build()
+    quick = cx.tier == "quick"
+    inv = ["TypeOK", "C05_Once", "C05_InactiveErr", "C05_ActiveFirst", "C05_CloseRetImpliesClosed",
+           "C05_WinnerDone", "C05_ReadsSequential"]
+    mcs = [
+        ("full-2closers", cfg({"W1": W("W1")}, {"C1": "e1", "C2": "e2"}, qsize=1, until=True, serve="full", reads=1)),
+        ("full-readfail", cfg({"W1": W("W1")}, {"C1": "e1"}, qsize=1, until=True, serve="full", reads=1, maxfaults=1)),
+        ("sync-3closers", cfg({"W1": W("W1")}, {"C1": "e1", "C2": "nil", "C3": "e3"}, qsize=0, serve="full", reads=1)),
+    ]
+    if not quick:
+        mcs += [
+            ("full-3closers-async", cfg({"W1": W("W1")}, {"C1": "e1", "C2": "nil", "C3": "e3"}, qsize=1, until=True, serve="full", reads=1)),
+            ("full-faults2", cfg({"W1": W("W1", "Wv")}, {"C1": "e1"}, qsize=2, until=True, serve="full", reads=2, maxfaults=2)),
+            ("sync-faults", cfg({"W1": W("W1", "CW1")}, {"C1": "e1", "C2": "e2"}, qsize=0, serve="full", reads=1, maxfaults=1)),
+            ("bounded-faults", cfg({"W1": W("W1"), "W2": W("Wv")}, {"C1": "e1"}, qsize=1, until=False, serve="full", reads=0, maxfaults=1)),
+        ]
+    for name, c in mcs:
+        mc_and_replay_cex(cx, "MC" + name.replace("-", ""), c, inv, what="C05 invariants, " + name)
+    lc = cfg({}, {"C1": "e1"}, qsize=1, until=True, serve="full", reads=1, maxfaults=1)
+    mc_and_replay_cex(cx, "MClive", lc, ["TypeOK"], properties=["C05_ReadLoopEnds"], spec="FairSpec",
+                      what="read loop terminates once reads fail / channel closes")
+    graphs = [("gfull", cfg({}, {"C1": "e1", "C2": "nil"}, qsize=1, until=True, serve="full", reads=1, maxfaults=1))]
+    if not quick:
+        graphs += [("gfullw", cfg({"W1": W("W1")}, {"C1": "e1"}, qsize=1, until=True, serve="full", reads=1, maxfaults=1)),
+                   ("gsync", cfg({"W1": W("W1")}, {"C1": "e1", "C2": "e2"}, qsize=0, serve="full", reads=1, maxfaults=1))]
+    for name, c in graphs:
+        st = replay_graph(cx, name, c, max_paths=300 if quick else None)
+        log("  replay %s: %s" % (name, st))
+    big = [
+        ("r3c3", cfg({"W1": W("W1", "Wv"), "W2": W("CW1"), "W3": W("WW")}, {"C1": "e1", "C2": "nil", "C3": "e3"}, qsize=2, until=True, serve="full", reads=2, maxfaults=2)),
+        ("r2c2sync", cfg({"W1": W("W1", "Wv"), "W2": W("CW1")}, {"C1": "e1", "C2": "e2"}, qsize=0, serve="full", reads=2, maxfaults=2)),
+        ("r2c2nb", cfg({"W1": W("W1", "Wv"), "W2": W("CW1")}, {"C1": "e1", "C2": "e2"}, qsize=1, until=False, serve="full", reads=1, maxfaults=1)),
+    ]
+    n = 30 if quick else 300
+    for name, c in big:
+        random_runs(cx, name, c, n, fault_prob=0.15, sizes=NZ_SIZES)
+    return finish(cx)
+
+
+CHECKS = {"C01": check_C01, "C02": check_C02, "C05": check_C05, "C06": check_C06, "C11": check_C11, "C18": check_C18}
